@@ -42,7 +42,8 @@ func TestC23(t *testing.T) {
 		"columns are counted like descriptor.proto/protoc do: zero-based, a tab advances to the next multiple of 8, one column per UTF-8 encoded rune",
 		"the index of a map entry in a path cannot be tied to a key: a path through a map value resolves if it resolves in some entry",
 	})
-	n := r.N(220, 3500)
+	c23Fixed(r)
+	n := r.N(400, 5000)
 	r.Par(n, func(i int) {
 		id := fmt.Sprintf("g/%d", i)
 		if !r.Want(id) {
@@ -220,7 +221,11 @@ func resolvePath(fd *descriptorpb.FileDescriptorProto, types gen.TypeResolver, p
 				first := ""
 				ok := false
 				mp.Range(func(_ protoreflect.MapKey, v protoreflect.Value) bool {
+					saved := info.unsetEnd
 					e := walk(v.Message(), i)
+					if e != "" {
+						info.unsetEnd = saved
+					}
 					if e == "" {
 						ok = true
 						return false
@@ -412,6 +417,7 @@ func c23WellFormed(r *vlib.Run, id, mode string, dec *descriptorpb.FileDescripto
 			viol("c23.path-unresolved", pathClass(dec, l.Path, pi), l, map[string]any{"why": pi.err})
 		} else if pi.unsetEnd {
 			r.Class("observed: path ends at an unpopulated singular field: " + elementOfPath(l.Path))
+
 		}
 		if e := checkSpan(st, l.Span); e != "" {
 			viol("c23.span-malformed", e, l, nil)
@@ -620,4 +626,125 @@ func c23LocationsOnly(r *vlib.Run, id, rel string, dec *descriptorpb.FileDescrip
 			map[string]any{"relation": rel, "first unmatched base location": fmt.Sprint(std[j]), "matched": j, "of": len(std), "source": text})
 	}
 	r.ClassN(rel+": locations added", int64(added))
+}
+
+// ---------------------------------------------------------------------------
+// fixed layouts
+// ---------------------------------------------------------------------------
+
+var c23Fixtures = []struct{ name, src string }{
+	// minimal witness: a group whose first token is `group` (no label is possible only inside a oneof)
+	{"group-without-label", "syntax = \"proto2\";\nmessage M {\n  oneof o {\n    // lead\n    group G = 1 { optional int32 a = 2; }\n  }\n}\n"},
+	{"group-with-label", "syntax = \"proto2\";\nmessage M {\n  // lead\n  optional group G = 1 { optional int32 a = 2; }\n}\n"},
+	// S13: a lone comment before a closing symbol, on the line of both neighbours / on its own line
+	{"s13-same-line-brace", "syntax = \"proto3\";\nmessage M { int32 a = 1; /* lone */ }\nmessage N {}\n"},
+	{"s13-own-line-brace", "syntax = \"proto3\";\nmessage M {\n  int32 a = 1;\n  // lone\n}\nmessage N {}\n"},
+	{"s13-same-line-semicolon", "syntax = \"proto3\";\nmessage M { int32 a = 1 /* lone */ ; int32 b = 2; }\n"},
+	{"s13-same-line-bracket", "syntax = \"proto3\";\nmessage M { int32 a = 1 [deprecated = true /* lone */ ]; /* after */ int32 b = 2; }\n"},
+	{"s13-enum", "syntax = \"proto3\";\nenum E { A = 0; /* lone */ } /* after-e */ enum F { B = 0; } // eof"},
+	{"s13-between-elements", "syntax = \"proto3\";\nmessage M {\n  int32 a = 1; // t\n  // d1\n\n  // l\n  int32 b = 2; /* x */ /* y */\n\n  /* z */ }\n"},
+	{"options-literal", "syntax = \"proto2\";\nimport \"google/protobuf/descriptor.proto\";\nmessage O { optional int32 i = 1; repeated O r = 2; map<string, O> m = 3; repeated int32 n = 4; }\n" +
+		"extend google.protobuf.MessageOptions { optional O o = 50000; repeated O ro = 50001; }\n" +
+		"message T {\n\toption (o) = { i: 1 /* a */ r: [ { i: 2 }, /* b */ { n: [1, 2] } ] m { key: \"k\" value { i: 3 } } // c\n\t};\n\toption (ro) = { i: 4 }; option (ro) = { r { i: 5 } };\n\toption (o).n = 7;\n}\n"},
+	{"tabs-and-unicode", "syntax = \"proto3\";\n\tmessage M {\t// ünï\n\t\tstring s = 1 [json_name = \"ünï€😀\"];\t/* 😀 */ int32 t = 2;\n\t}\n"},
+}
+
+func c23Fixed(r *vlib.Run) {
+	if !r.Mine(0) {
+		return
+	}
+	for _, fx := range c23Fixtures {
+		id := "fixed/" + fx.name
+		if !r.Want(id) {
+			continue
+		}
+		src := map[string]string{"c23.proto": fx.src}
+		var locs [4][]*descriptorpb.SourceCodeInfo_Location
+		var dec *descriptorpb.FileDescriptorProto
+		var types gen.TypeResolver
+		ok := true
+		for k, md := range sciModes {
+			out := gen.Compile(src, []string{"c23.proto"}, gen.Opts{SourceInfo: md.mode})
+			if !out.OK() {
+				r.Inconclusive("fixed input " + fx.name + " rejected: " + out.ErrSummary())
+				ok = false
+				break
+			}
+			fd := gen.Protos(out.Files)["c23.proto"]
+			locs[k] = fd.GetSourceCodeInfo().GetLocation()
+			if dec == nil {
+				bare := proto.Clone(fd).(*descriptorpb.FileDescriptorProto)
+				bare.SourceCodeInfo = nil
+				reg, errs := gen.BuildFilesLenient([]*descriptorpb.FileDescriptorProto{bare})
+				if len(errs) > 0 {
+					r.Inconclusive("fixed input refused by protodesc")
+					ok = false
+					break
+				}
+				types = gen.TypesOf(reg)
+				if dec, _ = decode(bare, types); dec == nil {
+					ok = false
+					break
+				}
+			}
+		}
+		if !ok {
+			continue
+		}
+		st := newSrcText(fx.src)
+		if fx.name == "options-literal" {
+			c23OracleSelfTest(r, dec, types, st, locs[3])
+		}
+		for k, md := range sciModes {
+			c23WellFormed(r, id+"/"+md.name, md.name, dec, types, st, locs[k], fx.src)
+		}
+		c23CommentsOnly(r, id, "extra-comments vs standard", st, locs[0], locs[1], fx.src)
+		c23CommentsOnly(r, id, "extra-comments+option-locations vs extra-option-locations", st, locs[2], locs[3], fx.src)
+		c23LocationsOnly(r, id, "extra-option-locations vs standard", dec, types, locs[0], locs[2], fx.src)
+		c23LocationsOnly(r, id, "extra-comments+option-locations vs extra-comments", dec, types, locs[1], locs[3], fx.src)
+		r.Class("fixed layout checked")
+	}
+}
+
+// c23OracleSelfTest perturbs real locations and requires the checkers to
+// notice; a checker that does not is reported as inconclusive (the monitor
+// would be blind), never as a pass.
+func c23OracleSelfTest(r *vlib.Run, dec *descriptorpb.FileDescriptorProto, types gen.TypeResolver, st *srcText, locs []*descriptorpb.SourceCodeInfo_Location) {
+	missed := []string{}
+	nIdx, nSpan := 0, 0
+	for _, l := range locs {
+		if len(l.Path) >= 2 {
+			// every component that is an index: push it out of range
+			for k := range l.Path {
+				p := append([]int32(nil), l.Path...)
+				p[k] += 1000
+				if resolvePath(dec, types, p).err == "" {
+					missed = append(missed, fmt.Sprint("path ", l.Path, " with component ", k, " +1000 still resolves"))
+				}
+				nIdx++
+			}
+		}
+		sp := append([]int32(nil), l.Span...)
+		sp[0] += 100000
+		if checkSpan(st, sp) == "" {
+			missed = append(missed, "span with line +100000 accepted")
+		}
+		sp = append([]int32(nil), l.Span...)
+		sp[1] += 5000
+		if checkSpan(st, sp) == "" {
+			missed = append(missed, "span with start column +5000 accepted")
+		}
+		if len(l.Span) == 3 && l.Span[2] > l.Span[1] {
+			sp = []int32{l.Span[0], l.Span[2], l.Span[1]}
+			if checkSpan(st, sp) == "" {
+				missed = append(missed, "span with end before start accepted")
+			}
+		}
+		nSpan++
+	}
+	if len(missed) > 0 || nIdx == 0 || nSpan == 0 {
+		r.Inconclusive("C23 oracle self-test failed: " + strings.Join(missed, "; "))
+		return
+	}
+	r.Class("oracle self-test passed (perturbed paths and spans are all refused)")
 }
